@@ -9,6 +9,12 @@ EXTENDS IntData, Json
 
 View == vals
 
+\* the integer domains of the explorations: -1 .. n-2 (a TLC configuration file has no negative literals)
+DomOf1 == {0 - 1}
+DomOf2 == {0 - 1, 0}
+DomOf3 == {0 - 1, 0, 1}
+DomOf4 == {0 - 1, 0, 1, 2}
+
 H(op, args, a, b) == [op |-> op, args |-> args, a |-> a, b |-> b]
 NoPrefix == <<>>
 \* values with shared history and spare capacity, all reachable through the exported API:
